@@ -17,6 +17,8 @@ def handle(ctx, viols, tracefile):
                 raise V.Machinery("trace line %d: %s" % (lineno, rule))
             if rec["ev"] == "cell":
                 what = "callback state=%s cookie=%s code=%s error=%s observed=%s" % (rec["st"], rec["ck"], rec["code"], rec["err"], json.dumps(rec["out"], sort_keys=True))
+            elif rec["ev"] == "cbpair":
+                what = "two callbacks presenting one code at the same time were given %d session(s) although the authenticator served %d redemption(s): %s" % (rec["sessions"], rec["redeems"], json.dumps(rec.get("conc")))
             else:
                 what = "flow start target=%r hops=%s recorded=%s callback: session=%s equals-recorded=%s location=%s" % (rec["target"][:120], rec["hops"], rec["recorded"], rec["cbsession"], rec["cbeq"], rec["cbloc"])
             V.report(ctx, rule, rec, what, {"kind": rec["ev"], "record": rec})
